@@ -1,0 +1,42 @@
+// Copyright 2023 The Go Authors. All rights reserved.
+// Use of this source code is governed by a BSD-style
+// license that can be found in the LICENSE file.
+
+//go:build verif && (!goexperiment.jsonv2 || !go1.25)
+
+package jsonwire
+
+// Ghost helpers used by the //@ contract clauses in the zz_verif_*.go files.
+// They are ordinary Go so that contract expressions are type-checked by the
+// Go type checker and can be executed when a counterexample is replayed.
+
+func old[T any](x T) T { return x }
+
+func implies(a, b bool) bool { return !a || b }
+
+func iff(a, b bool) bool { return a == b }
+
+func ite[T any](c bool, a, b T) T {
+	if c {
+		return a
+	}
+	return b
+}
+
+func vForall(lo, hi int, f func(int) bool) bool {
+	for i := lo; i < hi; i++ {
+		if !f(i) {
+			return false
+		}
+	}
+	return true
+}
+
+func vExists(lo, hi int, f func(int) bool) bool {
+	for i := lo; i < hi; i++ {
+		if f(i) {
+			return true
+		}
+	}
+	return false
+}
